@@ -35,7 +35,9 @@ func init() {
 	contextFunctions[symbols.NT_StepWithAxisAndNodeTest] = leftRightDependentResult
 	contextFunctions[symbols.NT_StepWithAxisAndNodeTestAndPredicate] = leftRightDependentResult
 	contextFunctions[symbols.NT_StepWithPredicateWithAnotherPredicate] = leftRightDependentResult
-	contextFunctions[symbols.NT_FilterExprWithPredicate] = leftRightDependentResult
+	contextFunctions[symbols.NT_FilterExprWithPredicate] = execFilterExprWithPredicate
+	contextFunctions[symbols.NT_PathExprFilterWithPath] = leftRightDependentResult
+	contextFunctions[symbols.NT_PathExprFilterWithAbbreviatedPath] = execAbbreviatedRelativeLocationPath
 	contextFunctions[symbols.NT_AxisName] = execAxisName
 	contextFunctions[symbols.NT_AbbreviatedStepParent] = execAbbreviatedStepParent
 	contextFunctions[symbols.NT_AbbreviatedAxisSpecifier] = execAbbreviatedAxisSpecifier
@@ -133,6 +135,29 @@ func execStep(context *exprContext, expr *grammar.Grammar) error {
 	}
 
 	return nil
+}
+
+// execFilterExprWithPredicate applies a predicate to a primary or filter
+// expression: the node-set is numbered in document order.
+func execFilterExprWithPredicate(context *exprContext, expr *grammar.Grammar) error {
+	children := make([]*bsr.BSR, 0, 2)
+
+	for _, cn := range expr.BSR.GetAllNTChildren() {
+		for _, c := range cn {
+			children = append(children, &c)
+		}
+	}
+
+	if err := execContext(context, expr.Next(children[0])); err != nil {
+		return err
+	}
+
+	if nodeSet, ok := context.result.(NodeSet); ok {
+		// Sort a copy: the node-set may be a variable owned by the caller.
+		context.result = cleanupForwardAxis(append(NodeSet(nil), nodeSet...))
+	}
+
+	return execContext(context, expr.Next(children[1]))
 }
 
 func execPredicate(context *exprContext, expr *grammar.Grammar) error {
